@@ -66,6 +66,7 @@ func c10Gen(rt *rapid.T) wProg {
 			}
 		}
 	}
+	p.Ops = append(p.Ops, wOp{K: "pub", S: 0, T: "g0"}, wOp{K: "pub", S: 0, T: "g0"})
 	// most sessions leave the work topics and sit on 'me'
 	for s := range p.Sess {
 		if gPct(rt, 50) {
@@ -120,10 +121,15 @@ func c10Gen(rt *rapid.T) wProg {
 			p.Ops = append(p.Ops, wOp{K: "set", S: 0, T: "g0", A: "given", U: rapid.IntRange(1, 3).Draw(rt, "tgt"), B: gPick(rt, []string{"JRWPS", "JRW", "N", "JRWP"}, "given")})
 		case x < 70:
 			p.Ops = append(p.Ops, wOp{K: "del", S: 0, T: "g0", A: "sub", U: rapid.IntRange(1, 3).Draw(rt, "tgt")})
-		case x < 76:
+		case x < 73:
 			p.Ops = append(p.Ops, wOp{K: "pub", S: s, T: topicFor(s)})
 		case x < 79:
-			p.Ops = append(p.Ops, wOp{K: "note", S: s, T: topicFor(s), A: gPick(rt, []string{"read", "recv", "kp"}, "what"), N: rapid.IntRange(0, 2).Draw(rt, "seq")})
+			what := gPick(rt, []string{"read", "recv", "kp"}, "what")
+			seq := rapid.IntRange(1, 2).Draw(rt, "seq")
+			if what == "kp" {
+				seq = 0
+			}
+			p.Ops = append(p.Ops, wOp{K: "sub", S: s, T: "g0"}, wOp{K: "note", S: s, T: "g0", A: what, N: seq})
 		case x < 82:
 			p.Ops = append(p.Ops, wOp{K: "set", S: s, T: gPick(rt, []string{"g0", "me"}, "dt"), A: "public", H: map[string]any{"fn": fmt.Sprintf("n%d", i)}})
 		case x < 84:
